@@ -121,7 +121,7 @@ def make(ty, k):
     return TGeom(ty, _Opaque(name + k), f"(SE.Geom.{ctor} {name}{k})")
 
 
-def tracer(A, O, real_data, ty1, ty2):
+def tracer(A, O, real_data, ty1, ty2, marker=True):
     """thunk running the real `compute_affinity` on symbolic geometries of the two types"""
     maxf = real_data.MAX_FREQUENCY
     tb, fb = rvar("tb"), rvar("fb")
@@ -167,18 +167,18 @@ def tracer(A, O, real_data, ty1, ty2):
         return TimeLeaf(b1[0], b1[2], b2[0], b2[2])
 
     def run():
-        saved = (O.data, O.geometry_to_shapely, O.buffer_shapely_geometry, A.geometry_to_shapely,
-                 A.compute_affinity_in_time)
-        O.data = DataStub
-        O.geometry_to_shapely = to_shape
-        O.buffer_shapely_geometry = buffer_marker
-        A.geometry_to_shapely = to_shape
-        A.compute_affinity_in_time = time_marker
+        patches = [(O, "data", DataStub), (O, "geometry_to_shapely", to_shape),
+                   (O, "buffer_shapely_geometry", buffer_marker), (A, "geometry_to_shapely", to_shape)]
+        if marker:
+            patches.append((A, "compute_affinity_in_time", time_marker))
+        saved = [(m, n, getattr(m, n)) for m, n, _ in patches]      # a missing name: the trace fails (broken tie)
+        for m, n, v in patches:
+            setattr(m, n, v)
         try:
             return A.compute_affinity(make(ty1, "1"), make(ty2, "2"), time_buffer=tb, freq_buffer=fb)
         finally:
-            (O.data, O.geometry_to_shapely, O.buffer_shapely_geometry, A.geometry_to_shapely,
-             A.compute_affinity_in_time) = saved
+            for m, n, v in saved:
+                setattr(m, n, v)
     return run
 
 
@@ -224,6 +224,41 @@ def route_obligation(name, run, ty1, ty2):
     return src, len(res)
 
 
+FULL_UNFOLD = ROUTE_UNFOLD + ["SE.Affinity.affinityR", "SE.Affinity.affinityPR", "SE.Affinity.timeIoUR", "Except.toOption"]
+
+
+def full_obligation(name, run, ty1, ty2):
+    """the marker-free tie: the value of the whole function (real `compute_affinity_in_time` included) is
+    `affinityR rnd G g1 g2 tb fb` — more paths, slower to elaborate"""
+    res = st.trace(run, catch=(ValueError,))
+    tree = st.to_tree(res)
+
+    def leaf(lf):
+        if lf[0] != "ok":
+            return "none"
+        v = lf[1]
+        if isinstance(v, bool) or not isinstance(v, (Sym, int, float)):
+            raise st.Untraceable(f"compute_affinity returned a {type(v).__name__}")
+        return f"some {term(v)}"
+
+    def tr(t, indent):
+        if t[0] == "ite":
+            pad = " " * indent
+            return (f"if {t[1][0]} then\n{pad}{tr(t[2], indent + 2)}\n{' ' * (indent - 2)}else\n{pad}{tr(t[3], indent + 2)}")
+        return leaf(t[1])
+    g1, g2 = make(ty1, "1").lean, make(ty2, "2").lean
+    src = (f"set_option linter.unusedVariables false in\n"
+           f"def {name} {{σ : Type}} (rnd : Rat → Rat) (G : SE.Affinity.Geos σ) {BINDERS} : Option Rat :=\n"
+           f"  {tr(tree, 4)}\n"
+           f"set_option linter.unusedVariables false in\n"
+           f"theorem {name}_tie {{σ : Type}} (rnd : Rat → Rat) (G : SE.Affinity.Geos σ) {BINDERS} :\n"
+           f"    {name} rnd G {ARGS} = (SE.Affinity.affinityR rnd G {g1} {g2} tb fb).toOption := by\n"
+           f"  unfold {name}\n"
+           f"  by_cases hneg : tb < 0 ∨ fb < 0 <;>\n"
+           f"    simp [hneg, {', '.join(FULL_UNFOLD)}] <;>\n    grind\n")
+    return src, len(res)
+
+
 def formula_obligation(name, run, variables, model_term, unfold):
     """a numeric kernel traced in the rounding arithmetic: `∀ rnd vars, name rnd vars = some (model rnd vars)`"""
     res = st.trace(run, catch=(ValueError,))
@@ -246,4 +281,53 @@ def formula_obligation(name, run, variables, model_term, unfold):
     src = (f"def {name} (rnd : Rat → Rat) ({args} : Rat) : Option Rat :=\n  {tr(tree, 4)}\n"
            f"theorem {name}_tie (rnd : Rat → Rat) ({args} : Rat) : {name} rnd {args} = some ({model_term}) := by\n"
            f"  unfold {name} {unfold}\n  se_close\n")
+    return src, len(res)
+
+
+def buffer_obligation(name, O, real_data, ty):
+    """`buffer_geometry` on a TimeStamp / TimeInterval / BoundingBox (buffer_timestamp, buffer_interval,
+    buffer_bounding_box_geometry) in the rounding arithmetic = the model's `bufferGeometryR`"""
+    maxf = real_data.MAX_FREQUENCY
+    tb, fb = rvar("tb"), rvar("fb")
+
+    class Rec:
+        def __init__(self, coordinates):
+            self.coordinates = list(coordinates)
+
+    class DataStub:
+        MAX_FREQUENCY = maxf
+        Geometry = real_data.Geometry
+        Time = getattr(real_data, "Time", float)
+        Frequency = getattr(real_data, "Frequency", float)
+        TimeInterval = staticmethod(lambda coordinates: Rec(coordinates))
+        BoundingBox = staticmethod(lambda coordinates: Rec(coordinates))
+
+    def run():
+        saved = O.data
+        O.data = DataStub
+        try:
+            out = O.buffer_geometry(make(ty, "1"), time_buffer=tb, freq_buffer=fb)
+            if not isinstance(out, Rec):
+                raise st.Untraceable("buffer_geometry returned a " + type(out).__name__)
+            return out.coordinates
+        finally:
+            O.data = saved
+    res = st.trace(run, catch=(ValueError,))
+    tree = st.to_tree(res)
+
+    def tr(t, indent):
+        if t[0] == "ite":
+            pad = " " * indent
+            return (f"if {t[1][0]} then\n{pad}{tr(t[2], indent + 2)}\n{' ' * (indent - 2)}else\n{pad}{tr(t[3], indent + 2)}")
+        if t[1][0] != "ok":
+            return "none"
+        return "some [" + ", ".join(term(x) for x in t[1][1]) + "]"
+    src = (f"set_option linter.unusedVariables false in\n"
+           f"def {name} (rnd : Rat → Rat) (t1 u1 s1 l1 e1 h1 tb fb : Rat) : Option (List Rat) :=\n  {tr(tree, 4)}\n"
+           f"set_option linter.unusedVariables false in\n"
+           f"theorem {name}_tie (rnd : Rat → Rat) (t1 u1 s1 l1 e1 h1 tb fb : Rat) :\n"
+           f"    {name} rnd t1 u1 s1 l1 e1 h1 tb fb = SE.Affinity.bufferedCoordsR rnd {make(ty, '1').lean} tb fb := by\n"
+           f"  unfold {name}\n"
+           f"  by_cases hneg : tb < 0 ∨ fb < 0 <;>\n"
+           f"    simp [hneg, SE.Affinity.bufferedCoordsR, SE.Affinity.bufferGeometryR, SE.MAXF] <;>\n    grind\n")
     return src, len(res)
